@@ -62,6 +62,10 @@ Clauses(e) ==
            e.hasExtra => /\ e.extra.allA = e.obs.result.aval /\ e.extra.allO = e.obs.result.oval
                          /\ e.extra.setA = e.obs.result.aset /\ e.extra.setO = e.obs.result.oset /\ e.extra.extraKeys = <<>>)
   /\ Check(tid, l, "P.pure.same_as_fresh", "", e.obs = e.fresh)
+  \* the same request answered in a fresh process that never parsed anything and runs under another string-hash seed:
+  \* outcome, result and the text of the error message (compared by digest)
+  /\ Check(tid, l, "P.pure.same_as_pristine", e.pristine.err,
+           e.pristine.err = e.obs.err /\ e.pristine.result = e.obs.result /\ e.pristine.msg = e.msg)
   /\ Check(tid, l, "P.pure.inputs_untouched", "", e.untouched)
   /\ Note(tid, l, "A.outcome", e.obs.err = err /\ (err = NoErr => e.obs.result = result))
 
